@@ -488,7 +488,7 @@ func c11Rules(c *Ctx) {
 		add(fmt.Sprintf("k-subset:%v", perm), y, false, names...)
 	}
 	// one service defined in two files: every scalar attribute is the last file's that sets it - `todo` too -, and only a service
-	// that is a placeholder after the merge is exempt from the attribute rules (round 13, S251)
+	// that is a placeholder after the merge is exempt from the attribute rules (round 13, S246)
 	for _, x := range []string{"", "true", "false"} {
 		for _, y := range []string{"", "true", "false"} {
 			for bad := 0; bad < 2; bad++ {
